@@ -213,6 +213,26 @@ fn scenarios(rng: &mut Rng) -> Vec<Scenario> {
         p.file("Main", "main.gom", &[d], &format!("fn main() {{\n    let _ = string_println(int32_to_string({}::Show::show({}::mk())));\n    ()\n}}\n", d, d));
         out.push(Scenario { family: "duplicate-impl-self-qualified-in-library", proj: p, expect: Expect::Reject });
     }
+    // 7b. a foreign trait for a foreign GENERIC type applied to a local type, and an inherent impl on such an
+    // application (the constructor decides ownership, not its arguments); in Main and in a library
+    for (where_, owner_is_main) in [("main", true), ("library", false)] {
+        for kind in ["trait-impl", "inherent-impl", "nested-argument"] {
+            let mut p = Proj::new();
+            p.file(d, "lib.gom", &[], "trait Show {\n    fn show(Self) -> int32;\n}\n\nstruct Gb[T] { it: T }\n\nenum Ob[T] { Som(T), Non }\n\nfn f(x: int32) -> int32 { x + 20 }\n");
+            let body = match kind {
+                "trait-impl" => format!("struct Loc {{ v: int32 }}\n\nimpl {d}::Show for {d}::Gb[Loc] {{\n    fn show(self: {d}::Gb[Loc]) -> int32 {{ self.it.v }}\n}}\n", d = d),
+                "inherent-impl" => format!("struct Loc {{ v: int32 }}\n\nimpl {d}::Gb[Loc] {{\n    fn peek(self: {d}::Gb[Loc]) -> int32 {{ self.it.v }}\n}}\n", d = d),
+                _ => format!("enum Loc {{ A, B }}\n\nimpl {d}::Show for {d}::Gb[{d}::Ob[Loc]] {{\n    fn show(self: {d}::Gb[{d}::Ob[Loc]]) -> int32 {{ 1 }}\n}}\n", d = d),
+            };
+            if owner_is_main {
+                p.file("Main", "main.gom", &[d], &format!("{}\nfn main() {{\n    let _ = string_println(int32_to_string({}::f(1)));\n    ()\n}}\n", body, d));
+            } else {
+                p.file(p3, "lib.gom", &[d], &format!("{}\nfn g(x: int32) -> int32 {{ x }}\n", body));
+                p.file("Main", "main.gom", &[d, p3], &format!("fn main() {{\n    let _ = string_println(int32_to_string({}::g(1) + {}::f(1)));\n    ()\n}}\n", p3, d));
+            }
+            out.push(Scenario { family: leak(format!("orphan-impl-foreign-generic-with-local-argument:{}:{}", kind, where_)), proj: p, expect: Expect::Reject });
+        }
+    }
     // 8. inherent impl on a foreign type
     {
         let mut p = Proj::new();
